@@ -181,9 +181,12 @@ impl Axecutor {
             ax.state.syscalls.pipe_contents.insert(read_end, Vec::new());
 
             let fd_ptr = ax.reg_read_64(RDI)?;
+            let second_fd_ptr = fd_ptr.checked_add(8).ok_or_else(|| {
+                AxError::from("pipe: the descriptor array does not fit in the address space")
+            })?;
 
             ax.mem_write_64(fd_ptr, read_end)?;
-            ax.mem_write_64(fd_ptr + 8, write_end)?;
+            ax.mem_write_64(second_fd_ptr, write_end)?;
 
             ax.reg_write_64(RAX, 0)?;
 
